@@ -226,6 +226,35 @@ pub fn deserializes<T, N: ArrayLength, const R: usize>() {
     if built < MAXID { assert!(drops(built) == 0); }
 }
 
+/// the in-place entry point (`Deserialize::deserialize_in_place`, serde's default forwards to `deserialize`): same acceptance rule
+pub fn deserializes_in_place<T, N: ArrayLength, const R: usize>() {
+    let n = N::USIZE;
+    let count = any_upto(n + 2);
+    let err_at = any_upto(n + 3);
+    let hint_up = if any_bool() { Some(any_upto(n + 2)) } else { None };
+    let hint_later = if any_bool() { Some(any_upto(2)) } else { None };
+    assume(!(hint_later == Some(0) && count > n));
+    assume(!(n == 0 && hint_up == Some(0) && count > 0));
+    let mut s = Script { count, err_at, hint_up, hint_later, produced: 0, hint_calls: 0, tuple_len: usize::MAX, after_none: false };
+    kani_cover!(count == n && err_at > n && hint_up.is_none(), "no hint, exact count");
+    kani_cover!(count == n + 1 && hint_up.is_none() && hint_later.is_none() && err_at > n + 1, "surplus without any hint");
+    let mut place: GenericArray<u8, N> = GenericArray::generate(|_| 0xEE);
+    let r: Result<(), DErr> = Deserialize::deserialize_in_place(ScriptDe(&mut s), &mut place);
+    let hint_ok = if n == 0 { hint_up.map_or(true, |h| h == 0) } else { hint_up.map_or(true, |h| h == n) };
+    let elem_err = err_at < count && err_at < n;
+    match r {
+        Ok(()) => {
+            assert!(hint_ok, "in place: accepted although the up-front hint announced another length");
+            assert!(count == n, "in place: accepted input that does not offer exactly N elements");
+            assert!(!elem_err, "in place: accepted although an element failed to parse");
+            if n > 0 { let i = any_upto(n - 1); assert!(place[i] as usize == i, "in place: elements out of order"); }
+        }
+        Err(_) => {
+            if n > 0 { assert!(!(hint_ok && count == n && !elem_err), "in place: rejected a well-formed input of exactly N elements"); }
+        }
+    }
+}
+
 macro_rules! c17_lattice {
     ($body:ident; $($name:ident: $N:ty, $u:literal;)*) => {
         pub mod $body {
@@ -238,8 +267,10 @@ macro_rules! c17_lattice {
 pub mod q {
     c17_lattice! { serializes; n0: U0, 4; n1: U1, 5; n3: U3, 7; }
     c17_lattice! { deserializes; n0: U0, 5; n1: U1, 6; n3: U3, 8; }
+    c17_lattice! { deserializes_in_place; n0: U0, 5; n1: U1, 6; n3: U3, 8; }
 }
 pub mod t {
     c17_lattice! { serializes; n2: U2, 6; n4: U4, 8; n8: U8, 12; }
     c17_lattice! { deserializes; n2: U2, 7; n4: U4, 9; n8: U8, 13; }
+    c17_lattice! { deserializes_in_place; n2: U2, 7; n4: U4, 9; }
 }
